@@ -173,7 +173,7 @@ def probe (st : St) (room : Nat) (dates : List Int) : String :=
   let live := match st.inst.rooms.find? (·.id = room) with
     | some r => matrix r dates
     | none => "none"
-  let stored := match RoomNode.readBack (storeOf st.inst) room with
+  let stored := match RoomNode.readBack st.dR.newestFirstRead (storeOf st.inst) room with
     | none => "none"
     | some rn =>
       match rn.parse with
@@ -248,7 +248,8 @@ def stepLine (st : St) (line : String) : St × String :=
       let dR : RoomNode.Defects :=
         { placingEdgeUnchecked := sw "placingEdge" r.placingEdgeUnchecked,
           roomRowUnchecked := sw "roomRow" r.roomRowUnchecked,
-          newGroupUserAdminUnchecked := sw "newGroupUserAdmin" r.newGroupUserAdminUnchecked }
+          newGroupUserAdminUnchecked := sw "newGroupUserAdmin" r.newGroupUserAdminUnchecked,
+          newestFirstRead := sw "newestFirstRead" r.newestFirstRead }
       ({ St.init with dI, dR }, s!"case {i}")
     | none => (st, "bad-op")
   | "room" :: rest =>
